@@ -1,6 +1,6 @@
-"""C11 - console thread-safety: a *bounded stress check only*.
+"""C11 - console thread-safety: a *bounded check only* (stress runs + two families of forced schedules).
 
-Schedule exploration (the quantifier of C11) is out of scope here: this module starts 2-4 real threads on
+Full schedule exploration (the quantifier of C11) is out of scope here: the stress part starts 2-4 real threads on
 one Console, lets the OS / the interpreter pick the schedule (``sys.setswitchinterval(1e-6)`` to get many
 preemptions) and checks the schedule-independent clauses of the statement on what actually happened:
 
@@ -12,6 +12,11 @@ preemptions) and checks the schedule-independent clauses of the statement on wha
                               captured markers reaches the file
   c11.record_order            with ``record=True`` the print / log markers in ``export_text()`` that also
                               reached the file are in the same order as in the file
+  c11.record_complete         with ``record=True`` every print / log marker that reached the file is exactly once
+                              in the recorded copy, where the recorded copy is what the export API hands out:
+                              the ``export_text(clear=True)`` results of the (single) exporting thread in the
+                              order of the calls, followed by a final ``export_text(clear=False)`` after all
+                              threads have joined (c11.record_order is evaluated on the same recorded copy)
   c11.no_deadlock             every worker joins within the timeout and stopping the live display returns
   c11.no_exception            no worker raised
 
@@ -22,17 +27,36 @@ and is never counted as another thread's output.  Redirection of sys.stdout / sy
 Results depend on the schedule the machine happens to produce: the programs are deterministic per seed, the
 interleavings are not.  A pass is therefore weak evidence; a failure is a real observed violation (the input
 records the programs; it may need several runs to reproduce).
+
+In addition to the stress runs (family "stress"), two families of *forced* schedules are run first; they do not
+depend on what the OS scheduler happens to do (the same clauses are evaluated on the outcome):
+
+  family "ops"      two or three threads whose programs are split into atomic steps (``cap_enter`` / ``cap_exit``
+                    and ``buf_enter`` / ``buf_exit`` open and close a ``console.capture()`` / ``with console:`` block
+                    as separate steps, so that another thread can run whole calls while the block is open); a
+                    token is handed from thread to thread and *every* interleaving of the steps is executed
+                    (a seeded sample of them when there are more than the cap)
+  family "preempt"  one preemption at source-line granularity: thread E runs ``print, X, print`` with ``sys.settrace``
+                    counting the line events of X inside the modules that define the objects shared between the
+                    threads (Console, Live, Progress); at the k-th line event E is suspended and a fresh thread P runs
+                    the call Y to completion (or until it blocks on something E holds: its frame does not move any
+                    more; E then goes on and P finishes later).  All k when X has at most ``cap`` line events,
+                    otherwise ``cap`` evenly spread ones with a seeded offset.  X, Y range over print, log, a
+                    capture block, a ``with console:`` block, ``export_text(clear=True)`` and (with a live display)
+                    ``live.update(refresh=True)``.  Only one of the two threads exports.
 """
 
 import hashlib
 import io
 import json
+import math
+import queue
 import random
 import re
 import sys
 import threading
 import time
-from typing import Any, Dict, List, Optional, Tuple
+from typing import Any, Dict, Iterator, List, Optional, Tuple
 
 from rich.console import Console
 from rich.live import Live
@@ -41,6 +65,13 @@ from rich.progress import Progress, TextColumn
 JOIN_TIMEOUT = 20.0
 MAX_FAIL_PER_CLAUSE = 3
 _MARK = re.compile(r"<([PL])\.(\d+)\.(\d+)\.(\d+)\.(\d+)>")
+# family "preempt": the suspended thread polls the other one; it is taken to be blocked when its innermost frame
+# has not moved for STALL_POLLS consecutive polls (a wrong guess only means that the two threads really run
+# concurrently from there on - still a legal schedule, the clauses do not depend on the schedule)
+POLL_S = 0.001
+STALL_POLLS = 2      # ... and the kernel says that the thread sleeps (not: runnable but without a CPU)
+STALL_POLLS_BLIND = 5  # where /proc is not there
+FORCED_RUN_BASE = 1000000  # run ids of the forced schedules (markers stay unique and recognisable)
 
 
 class RecFile(io.TextIOBase):
@@ -92,68 +123,115 @@ def gen_programs(rng: random.Random, scenario: str) -> List[List[list]]:
     return programs
 
 
-def run_once(run_id: int, scenario: str, programs: List[List[list]], auto_refresh: bool) -> dict:
-    file = RecFile()
-    console = Console(file=file, force_terminal=True, width=100, height=40, color_system=None, legacy_windows=False,
-                      record=True, log_path=False, log_time=False, _environ={})
-    live: Optional[Live] = None
-    progress: Optional[Progress] = None
-    task_id = None
-    if scenario == "live":
-        live = Live("<F.init>", console=console, auto_refresh=auto_refresh, refresh_per_second=200,
-                    redirect_stdout=False, redirect_stderr=False)
-        live.start()
-    elif scenario == "progress":
-        progress = Progress(TextColumn("<F.{task.completed}>"), console=console, auto_refresh=auto_refresh,
-                            refresh_per_second=200, redirect_stdout=False, redirect_stderr=False)
-        task_id = progress.add_task("t", total=1000)
-        progress.start()
+def add_exports(rng: random.Random, programs: List[List[list]]) -> None:
+    """In about half of the stress runs thread 0 (and only thread 0: the order of the exports is then the order
+    of its calls) also takes the recording out with ``export_text(clear=True)`` 1-2 times while the others print.
+    A separate generator: the programs of ``gen_programs`` stay what they were."""
+    if rng.random() < 0.5:
+        for _ in range(rng.randint(1, 2)):
+            programs[0].insert(rng.randint(1, len(programs[0])), ["export"])
 
-    n = len(programs)
-    barrier = threading.Barrier(n)
-    results: List[dict] = [{"printed": [], "captures": [], "error": None, "done": False} for _ in range(n)]
 
-    def worker(t: int) -> None:
-        res = results[t]
-        try:
-            barrier.wait(JOIN_TIMEOUT)
-            for i, op in enumerate(programs[t]):
-                name = op[0]
-                if name == "print":
-                    marks = [_marker("P", run_id, t, i, k) for k in range(op[1])]
-                    console.print("\n".join(marks))
-                    res["printed"].append(marks)
-                elif name == "log":
-                    marks = [_marker("L", run_id, t, i, 0)]
-                    console.log(marks[0])
-                    res["printed"].append(marks)
-                elif name == "capture":
-                    inside = []
-                    with console.capture() as cap:
-                        for j in range(op[1]):
-                            marks = [_marker("P", run_id, t, i, j * 10 + k) for k in range(op[2])]
-                            console.print("\n".join(marks))
-                            inside.append(marks)
-                    res["captures"].append({"marks": inside, "text": cap.get(), "op": i})
-                elif name == "live_update":
-                    live.update("\n".join("<F.%d.%d.%d>" % (t, i, k) for k in range(op[1])), refresh=True)
-                elif name == "advance":
-                    progress.advance(task_id, op[1])
-                    progress.refresh()
-            res["done"] = True
-        except BaseException as error:  # noqa: B902 - reported as a failure, never swallowed
-            import traceback
+class _Ctx:
+    """One console on a recording file (+ optionally a running live display / progress) and the per-thread notes."""
 
-            res["error"] = "%s: %s\n%s" % (type(error).__name__, error, traceback.format_exc(limit=-3))
+    def __init__(self, run_id: int, scenario: str, auto_refresh: bool, n_threads: int) -> None:
+        self.run_id = run_id
+        self.file = RecFile()
+        self.console = Console(file=self.file, force_terminal=True, width=100, height=40, color_system=None,
+                               legacy_windows=False, record=True, log_path=False, log_time=False, _environ={})
+        self.live: Optional[Live] = None
+        self.progress: Optional[Progress] = None
+        self.task_id = None
+        if scenario == "live":
+            self.live = Live("<F.init>", console=self.console, auto_refresh=auto_refresh, refresh_per_second=200,
+                             redirect_stdout=False, redirect_stderr=False)
+            self.live.start()
+        elif scenario == "progress":
+            self.progress = Progress(TextColumn("<F.{task.completed}>"), console=self.console, auto_refresh=auto_refresh,
+                                     refresh_per_second=200, redirect_stdout=False, redirect_stderr=False)
+            self.task_id = self.progress.add_task("t", total=1000)
+            self.progress.start()
+        self.results: List[dict] = [{"printed": [], "captures": [], "error": None, "done": False, "open": []}
+                                    for _ in range(n_threads)]
+        self.exports: List[str] = []  # export_text(clear=True) results; only ever appended by ONE thread per run
 
-    threads = [threading.Thread(target=worker, args=(t,), daemon=True, name="c11-%d-%d" % (run_id, t)) for t in range(n)]
-    t0 = time.time()
-    for th in threads:
-        th.start()
+
+def _fmt_error(error: BaseException) -> str:
+    import traceback
+
+    return "%s: %s\n%s" % (type(error).__name__, error, traceback.format_exc(limit=-3))
+
+
+def _exec_op(ctx: _Ctx, t: int, i: int, op: list) -> None:
+    """Thread ``t`` executes step ``i`` of its program and notes what it did."""
+    console = ctx.console
+    run_id = ctx.run_id
+    res = ctx.results[t]
+    name = op[0]
+    # print / log inside a capture block that this thread has opened with a separate step belongs to that capture
+    dest = res["printed"]
+    for entry in reversed(res["open"]):
+        if entry[0] == "cap":
+            dest = entry[3]
+            break
+    if name == "print":
+        marks = [_marker("P", run_id, t, i, k) for k in range(op[1])]
+        console.print("\n".join(marks))
+        dest.append(marks)
+    elif name == "log":
+        marks = [_marker("L", run_id, t, i, 0)]
+        console.log(marks[0])
+        dest.append(marks)
+    elif name == "capture":
+        inside = []
+        with console.capture() as cap:
+            for j in range(op[1]):
+                marks = [_marker("P", run_id, t, i, j * 10 + k) for k in range(op[2])]
+                console.print("\n".join(marks))
+                inside.append(marks)
+        res["captures"].append({"marks": inside, "text": cap.get(), "op": i})
+    elif name == "buffered":  # a ``with console:`` block: the prints are written when the block is left
+        with console:
+            for j in range(op[1]):
+                marks = [_marker("P", run_id, t, i, j * 10)]
+                console.print(marks[0])
+                dest.append(marks)
+    elif name == "live_update":
+        ctx.live.update("\n".join("<F.%d.%d.%d>" % (t, i, k) for k in range(op[1])), refresh=True)
+    elif name == "advance":
+        ctx.progress.advance(ctx.task_id, op[1])
+        ctx.progress.refresh()
+    elif name == "export":
+        ctx.exports.append(console.export_text(clear=True))
+    elif name == "cap_enter":
+        cap = console.capture()
+        cap.__enter__()
+        res["open"].append(["cap", cap, i, []])
+    elif name == "cap_exit":
+        _, cap, i0, inside = res["open"].pop()
+        cap.__exit__(None, None, None)
+        res["captures"].append({"marks": inside, "text": cap.get(), "op": i0})
+    elif name == "buf_enter":
+        console.__enter__()
+        res["open"].append(["buf", None, i, None])
+    elif name == "buf_exit":
+        res["open"].pop()
+        console.__exit__(None, None, None)
+    else:  # pragma: no cover
+        raise ValueError("unknown op %r" % (op,))
+
+
+def _join_and_judge(ctx: _Ctx, threads: List[threading.Thread], t0: float, already_stuck: Optional[List[str]] = None) -> Tuple[List[dict], bool]:
+    """Join the threads, stop the display, evaluate every clause.  Returns (failures, judged)."""
+    console, file, results = ctx.console, ctx.file, ctx.results
+    live, progress = ctx.live, ctx.progress
     deadline = t0 + JOIN_TIMEOUT
-    for th in threads:
-        th.join(max(0.0, deadline - time.time()))
-    stuck = [th.name for th in threads if th.is_alive()]
+    stuck = list(already_stuck or [])
+    if not stuck:
+        for th in threads:
+            th.join(max(0.0, deadline - time.time()))
+        stuck = [th.name for th in threads if th.is_alive()]
     stop_stuck = False
     if not stuck and (live is not None or progress is not None):
         stopper = threading.Thread(target=(live or progress).stop, daemon=True)
@@ -169,12 +247,12 @@ def run_once(run_id: int, scenario: str, programs: List[List[list]], auto_refres
     if stuck or stop_stuck:
         fail("c11.no_deadlock", "threads still alive after %.0f s: %s%s" % (JOIN_TIMEOUT, stuck, " + stop()" if stop_stuck else ""),
              "all threads join", {"stuck": stuck, "stop_stuck": stop_stuck})
-        return {"fails": fails, "interleaved": False, "writes": len(file.records)}
+        return fails, False
     for t, res in enumerate(results):
         if res["error"]:
             fail("c11.no_exception", "worker %d raised" % t, "no exception", res["error"][:600])
     if any(r["error"] for r in results):
-        return {"fails": fails, "interleaved": False, "writes": len(file.records)}
+        return fails, False
 
     text = file.text()
     # ---- each print reaches the file contiguously and exactly once
@@ -202,31 +280,367 @@ def run_once(run_id: int, scenario: str, programs: List[List[list]], auto_refres
             if leaked:
                 fail("c11.capture_isolated", "captured text of thread %d (op %d) was also written to the file" % (t, cap["op"]),
                      [], leaked)
-    # ---- record order == file order (markers that reached the file)
-    exported = console.export_text(clear=False)
+    # ---- record order == file order (markers that reached the file); the recorded copy is what the export API
+    #      handed out: the export_text(clear=True) results of the exporting thread in call order, then the rest
+    exports = list(ctx.exports)
+    exported = "".join(exports) + console.export_text(clear=False)
     file_seq = [mm.group(0) for mm in _MARK.finditer(text)]
     in_file = set(file_seq)
-    rec_seq = [mm.group(0) for mm in _MARK.finditer(exported) if mm.group(0) in in_file]
+    rec_all = [mm.group(0) for mm in _MARK.finditer(exported)]
+    rec_seq = [m for m in rec_all if m in in_file]
     if rec_seq != file_seq:
         d = 0
         while d < len(rec_seq) and d < len(file_seq) and rec_seq[d] == file_seq[d]:
             d += 1
         fail("c11.record_order", "markers in export_text() are not in file order (first difference at #%d)" % d,
              file_seq[max(0, d - 1): d + 3], rec_seq[max(0, d - 1): d + 3])
-    # ---- did the schedule interleave at all?
+    # ---- every marker that reached the file is exactly once in the recorded copy
+    rec_count: Dict[str, int] = {}
+    for m in rec_all:
+        rec_count[m] = rec_count.get(m, 0) + 1
+    wrong = [(m, rec_count.get(m, 0)) for m in dict.fromkeys(file_seq) if rec_count.get(m, 0) != 1]
+    if wrong:
+        fail("c11.record_complete",
+             "%d marker(s) that reached the file are not exactly once in the recorded copy (%d export_text(clear=True) "
+             "calls + the final export): %s" % (len(wrong), len(exports), ", ".join("%s x%d" % w for w in wrong[:4])),
+             {"file": file_seq[:12]}, {"exports": [[mm.group(0) for mm in _MARK.finditer(e)] for e in exports][:6],
+                                       "final": [mm.group(0) for mm in _MARK.finditer(exported[len("".join(exports)):])][:12]})
+    return fails, True
+
+
+def _interleaved(file: RecFile) -> bool:
+    """Did the schedule interleave at all (some thread wrote, another wrote, the first wrote again)?"""
     order = [tid for tid, _ in file.records]
-    interleaved = False
     seen_after: Dict[int, bool] = {}
     last = None
     for tid in order:
         if tid != last:
             if tid in seen_after:
-                interleaved = True
-                break
+                return True
             if last is not None:
                 seen_after[last] = True
             last = tid
-    return {"fails": fails, "interleaved": interleaved, "writes": len(file.records)}
+    return False
+
+
+def run_once(run_id: int, scenario: str, programs: List[List[list]], auto_refresh: bool) -> dict:
+    n = len(programs)
+    ctx = _Ctx(run_id, scenario, auto_refresh, n)
+    barrier = threading.Barrier(n)
+
+    def worker(t: int) -> None:
+        res = ctx.results[t]
+        try:
+            barrier.wait(JOIN_TIMEOUT)
+            for i, op in enumerate(programs[t]):
+                _exec_op(ctx, t, i, op)
+            res["done"] = True
+        except BaseException as error:  # noqa: B902 - reported as a failure, never swallowed
+            res["error"] = _fmt_error(error)
+
+    threads = [threading.Thread(target=worker, args=(t,), daemon=True, name="c11-%d-%d" % (run_id, t)) for t in range(n)]
+    t0 = time.time()
+    for th in threads:
+        th.start()
+    fails, judged = _join_and_judge(ctx, threads, t0)
+    return {"fails": fails, "interleaved": judged and _interleaved(ctx.file), "writes": len(ctx.file.records)}
+
+
+# ----------------------------------------------------------------------------------------------------------------
+# forced schedules: a few long-lived threads that execute one job at a time (a new Console per run: its
+# thread-local state is fresh for every run although the threads are reused)
+
+class _Pool:
+    def __init__(self, n: int) -> None:
+        self.inbox = [queue.SimpleQueue() for _ in range(n)]
+        self.done = [threading.Semaphore(0) for _ in range(n)]
+        self.broken = False
+        self.threads = [threading.Thread(target=self._loop, args=(t,), daemon=True, name="c11-forced-%d" % t) for t in range(n)]
+        for th in self.threads:
+            th.start()
+
+    def _loop(self, t: int) -> None:
+        while True:
+            job = self.inbox[t].get()
+            if job is None:
+                return
+            try:
+                job()
+            except BaseException:  # noqa: B902 - the jobs note their own errors
+                pass
+            finally:
+                self.done[t].release()
+
+    def post(self, t: int, job) -> None:
+        self.inbox[t].put(job)
+
+    def wait(self, t: int, timeout: float) -> bool:
+        ok = self.done[t].acquire(timeout=max(0.0, timeout))
+        if not ok:
+            self.broken = True
+        return ok
+
+    def close(self) -> None:
+        for q in self.inbox:
+            q.put(None)
+
+
+def _kernel_state(native_id: Optional[int]) -> Optional[str]:
+    """'R' running / runnable, 'S' sleeping (e.g. waiting for a lock), ... of a thread of this process; None if unknown."""
+    try:
+        with open("/proc/self/task/%d/stat" % native_id) as f:
+            data = f.read()
+        return data[data.rindex(")") + 2]
+    except Exception:
+        return None
+
+
+# ----------------------------------------------------------------------------------------------------------------
+# family "ops": every interleaving of the steps of small programs (token passing, one step at a time)
+
+OPS_PROGRAMS: List[Tuple[str, List[List[list]]]] = [
+    # another thread prints / logs / exports while a capture block is open
+    ("none", [[["cap_enter"], ["print", 2], ["print", 1], ["cap_exit"], ["print", 1]],
+              [["print", 1], ["log"], ["export"]]]),
+    # ... while a ``with console:`` block is open
+    ("none", [[["buf_enter"], ["print", 1], ["print", 2], ["buf_exit"], ["print", 1]],
+              [["print", 2], ["capture", 1, 1], ["export"]]]),
+    # two capture blocks open at the same time
+    ("none", [[["cap_enter"], ["log"], ["cap_exit"], ["export"]],
+              [["cap_enter"], ["print", 1], ["cap_exit"], ["print", 1]]]),
+    # three threads
+    ("none", [[["cap_enter"], ["print", 1], ["cap_exit"]], [["print", 1]], [["log"], ["export"]]]),
+    # with a live display / a progress display that is refreshed by hand
+    ("live", [[["cap_enter"], ["print", 1], ["cap_exit"], ["print", 1]],
+              [["live_update", 1], ["print", 1], ["export"]]]),
+    ("progress", [[["cap_enter"], ["print", 1], ["cap_exit"]], [["advance", 1], ["print", 2]]]),
+]
+
+
+def gen_ops_programs(rng: random.Random) -> Tuple[str, List[List[list]]]:
+    """A seeded program pair of the same kind: thread 0 opens a block and prints in it, thread 1 runs whole calls."""
+    scenario = rng.choice(["none", "none", "live", "progress"])
+    kind = rng.choice(["cap", "cap", "buf"])
+    a: List[list] = []
+    if rng.random() < 0.5:
+        a.append(rng.choice([["print", 1], ["log"]]))
+    a.append([kind + "_enter"])
+    for _ in range(rng.randint(1, 2)):
+        a.append(rng.choice([["print", 1], ["print", 2], ["log"]]))
+    a.append([kind + "_exit"])
+    if rng.random() < 0.6:
+        a.append(["print", rng.randint(1, 2)])
+    menu = [["print", 1], ["print", 2], ["log"], ["capture", 1, 1], ["export"], ["buffered", 1]]
+    if scenario == "live":
+        menu.append(["live_update", 1])
+    if scenario == "progress":
+        menu.append(["advance", 1])
+    b = [list(rng.choice(menu)) for _ in range(rng.randint(2, 3))]
+    return scenario, [a, b]
+
+
+def _n_interleavings(counts: List[int]) -> int:
+    total = math.factorial(sum(counts))
+    for c in counts:
+        total //= math.factorial(c)
+    return total
+
+
+def _all_interleavings(counts: List[int]) -> Iterator[List[int]]:
+    def rec(left: List[int], acc: List[int]) -> Iterator[List[int]]:
+        if not any(left):
+            yield list(acc)
+            return
+        for t, c in enumerate(left):
+            if c:
+                left[t] -= 1
+                acc.append(t)
+                yield from rec(left, acc)
+                acc.pop()
+                left[t] += 1
+
+    yield from rec(list(counts), [])
+
+
+def schedules_for(counts: List[int], cap: int, rng: random.Random) -> List[List[int]]:
+    if _n_interleavings(counts) <= cap:
+        return list(_all_interleavings(counts))
+    base = [t for t, c in enumerate(counts) for _ in range(c)]
+    seen = set()
+    out = []
+    tries = 0
+    while len(out) < cap and tries < cap * 20:
+        tries += 1
+        s = list(base)
+        rng.shuffle(s)
+        if tuple(s) not in seen:
+            seen.add(tuple(s))
+            out.append(s)
+    return out
+
+
+def run_schedule(pool: _Pool, run_id: int, scenario: str, programs: List[List[list]], schedule: List[int]) -> dict:
+    """Execute the steps of the programs in exactly the order ``schedule`` (a list of thread indexes)."""
+    n = len(programs)
+    ctx = _Ctx(run_id, scenario, False, n)
+    t0 = time.time()
+    nxt = [0] * n
+    stuck: List[str] = []
+
+    def step_job(t: int, i: int, op: list):
+        def job() -> None:
+            res = ctx.results[t]
+            try:
+                if res["error"] is None:
+                    _exec_op(ctx, t, i, op)
+            except BaseException as error:  # noqa: B902
+                res["error"] = _fmt_error(error)
+        return job
+
+    for step, t in enumerate(schedule):
+        i = nxt[t]
+        nxt[t] += 1
+        pool.post(t, step_job(t, i, programs[t][i]))
+        if not pool.wait(t, JOIN_TIMEOUT):
+            stuck = ["%s (step %d of the schedule, %r, does not return although no other thread is inside a call)"
+                     % (pool.threads[t].name, step, programs[t][i])]
+            break
+    fails, judged = _join_and_judge(ctx, [], t0, already_stuck=stuck)
+    switches = sum(1 for a, b in zip(schedule, schedule[1:]) if a != b)
+    return {"fails": fails, "interleaved": judged and switches >= 2, "writes": len(ctx.file.records),
+            "n_print": sum(len(r["printed"]) for r in ctx.results), "n_capt": sum(len(r["captures"]) for r in ctx.results)}
+
+
+# ----------------------------------------------------------------------------------------------------------------
+# family "preempt": one preemption at a source line of the call X, the call Y runs there
+
+def shared_object_files() -> frozenset:
+    """Source files of the modules that define the objects the threads share (Console, Live, Progress)."""
+    files = set()
+    for cls in (Console, Live, Progress):
+        f = getattr(sys.modules.get(cls.__module__), "__file__", None)
+        if f:
+            files.add(f)
+    return frozenset(files)
+
+
+class _Preempter:
+    """``sys.settrace`` hook of thread E: counts the line events in ``files``; at the k-th one calls ``hand_over``."""
+
+    def __init__(self, files: frozenset, k: int, hand_over) -> None:
+        self.files = files
+        self.k = k
+        self.hand_over = hand_over
+        self.count = 0
+        self.fired = False
+        self.where: Optional[str] = None
+
+    def global_trace(self, frame, event, arg):
+        if frame.f_code.co_filename in self.files:
+            return self.local_trace
+        return None
+
+    def local_trace(self, frame, event, arg):
+        if event == "line":
+            self.count += 1
+            if self.count == self.k and not self.fired:
+                self.fired = True
+                self.where = "%s:%d (%s)" % (frame.f_code.co_filename.rsplit("/", 1)[-1], frame.f_lineno, frame.f_code.co_name)
+                self.hand_over()
+        return self.local_trace
+
+
+def run_preempt(pool: _Pool, run_id: int, scenario: str, x: list, y: list, k: int, files: frozenset) -> dict:
+    """Thread E (index 0): print, X, print.  At the k-th line event of X thread P (index 1) runs Y.
+    k == 0: no preemption (Y runs after E has finished); used to count the line events of X."""
+    ctx = _Ctx(run_id, scenario, False, 2)
+    state = {"handed": False, "posted": False, "collected": False}
+    p_thread = pool.threads[1]
+
+    def p_main() -> None:
+        res = ctx.results[1]
+        try:
+            _exec_op(ctx, 1, 0, y)
+            res["done"] = True
+        except BaseException as error:  # noqa: B902
+            res["error"] = _fmt_error(error)
+
+    def hand_over() -> None:
+        # E is suspended here (inside its trace hook) until P is through, or until P does not move any more
+        state["posted"] = True
+        pool.post(1, p_main)
+        last = None
+        same = 0
+        t_end = time.time() + JOIN_TIMEOUT
+        while time.time() < t_end:
+            if pool.done[1].acquire(timeout=POLL_S):
+                state["handed"] = state["collected"] = True
+                return
+            frame = sys._current_frames().get(p_thread.ident)
+            kstate = _kernel_state(p_thread.native_id)
+            key = (id(frame), frame.f_lasti, kstate) if frame is not None else None
+            if key == last:
+                same += 1
+                if (kstate == "S" and same >= STALL_POLLS) or (kstate is None and same >= STALL_POLLS_BLIND):
+                    return
+            else:
+                last, same = key, 0
+
+    pre = _Preempter(files, k, hand_over)
+
+    def e_main() -> None:
+        res = ctx.results[0]
+        try:
+            _exec_op(ctx, 0, 0, ["print", 1])
+            sys.settrace(pre.global_trace)
+            try:
+                _exec_op(ctx, 0, 1, x)
+            finally:
+                sys.settrace(None)
+            _exec_op(ctx, 0, 2, ["print", 1])
+            res["done"] = True
+        except BaseException as error:  # noqa: B902
+            res["error"] = _fmt_error(error)
+
+    t0 = time.time()
+    stuck: List[str] = []
+    pool.post(0, e_main)
+    if not pool.wait(0, JOIN_TIMEOUT):
+        stuck.append(pool.threads[0].name + " (E: print, X, print)")
+    else:
+        if not state["posted"]:
+            state["posted"] = True
+            pool.post(1, p_main)
+        if not state["collected"] and not pool.wait(1, t0 + JOIN_TIMEOUT - time.time()):
+            stuck.append(pool.threads[1].name + " (P: Y)")
+    fails, judged = _join_and_judge(ctx, [], t0, already_stuck=stuck)
+    return {"fails": fails, "interleaved": judged and pre.fired and state["handed"], "writes": len(ctx.file.records),
+            "count": pre.count, "fired": pre.fired, "handed": state["handed"], "where": pre.where,
+            "n_print": sum(len(r["printed"]) for r in ctx.results), "n_capt": sum(len(r["captures"]) for r in ctx.results)}
+
+
+def preempt_points(n: int, full: int, cap: int, rng: random.Random) -> List[int]:
+    """Every line-event position of a call that has at most ``full`` of them, else ``cap`` evenly spread ones."""
+    if n <= max(full, cap):
+        return list(range(1, n + 1))
+    step = n / float(cap)
+    u = rng.random()
+    return sorted({min(n, 1 + int((j + u) * step)) for j in range(cap)})
+
+
+def preempt_pairs(quick: bool) -> List[Tuple[str, list, list]]:
+    xs = [["export"], ["print", 2], ["log"], ["capture", 1, 1], ["buffered", 1]]
+    ys = [["print", 1], ["log"], ["capture", 1, 1], ["export"]]
+    pairs = [("none", x, y) for x in xs for y in ys if not (x[0] == "export" and y[0] == "export")]
+    if quick:
+        live_xs = [["live_update", 1], ["print", 1], ["export"]]
+        live_ys = [["print", 1], ["live_update", 1]]
+    else:
+        live_xs = [["live_update", 1], ["print", 1], ["export"], ["capture", 1, 1], ["log"]]
+        live_ys = [["print", 1], ["live_update", 1], ["capture", 1, 1], ["export"]]
+        pairs += [("progress", x, y) for x in (["advance", 1], ["print", 1], ["export"]) for y in (["print", 1], ["advance", 1])]
+    pairs += [("live", x, y) for x in live_xs for y in live_ys if not (x[0] == "export" and y[0] == "export")]
+    return pairs
 
 
 def run(tier: str, seed: int) -> dict:
@@ -274,8 +688,6 @@ def _run_inner(tier: str, seed: int, progress=None) -> dict:
     quick = tier != "thorough"
     n_runs = 600 if quick else 12000
     budget = 22.0 if quick else 540.0
-    old_interval = sys.getswitchinterval()
-    sys.setswitchinterval(1e-6)
     clauses: Dict[str, int] = {}
     pending: Dict[str, List[dict]] = {}
     totals: Dict[str, int] = {}
@@ -284,9 +696,107 @@ def _run_inner(tier: str, seed: int, progress=None) -> dict:
     evaluations = 0
     interleaved_runs = 0
     scen_count: Dict[str, int] = {}
+    deadlocked = False
+
+    def account(res: dict, n_print: int, n_capt: int, run: int, input_key: str, inp: dict, ident: Any) -> None:
+        nonlocal evaluations, interleaved_runs, deadlocked
+        evaluations += 1
+        clauses["c11.print_contiguous_once"] = clauses.get("c11.print_contiguous_once", 0) + n_print
+        clauses["c11.capture_isolated"] = clauses.get("c11.capture_isolated", 0) + n_capt
+        for name in ("c11.record_order", "c11.record_complete", "c11.no_deadlock", "c11.no_exception"):
+            clauses[name] = clauses.get(name, 0) + 1
+        if res["interleaved"]:
+            interleaved_runs += 1
+            distinct.add(hashlib.sha1(json.dumps(ident).encode()).hexdigest())
+        for f in res["fails"]:
+            totals[f["check"]] = totals.get(f["check"], 0) + 1
+            lst = pending.setdefault(f["check"], [])
+            if len(lst) < MAX_FAIL_PER_CLAUSE and not any(x["input"]["run"] == run for x in lst):
+                lst.append({"check": f["check"], "what": f["what"], "input_key": input_key, "input": dict(inp, seed=seed, run=run),
+                            "expected": f["expected"], "observed": f["observed"]})
+        if any(f["check"] == "c11.no_deadlock" for f in res["fails"]):
+            deadlocked = True  # stuck daemon threads are left behind; do not pile more on top
+
+    # ------------------------------------------------------------------ forced schedules, family "ops"
+    forced_stats = {"ops_programs": 0, "ops_schedules": 0, "preempt_pairs": 0, "preempt_runs": 0, "preempt_handed": 0}
+    run_id = FORCED_RUN_BASE
+    pool = _Pool(max(len(p) for _, p in OPS_PROGRAMS))
+    ops_cap = 40 if quick else 200
+    ops_list = [(s, p, "fixed%d" % j) for j, (s, p) in enumerate(OPS_PROGRAMS)]
+    for j in range(4 if quick else 40):
+        rng = random.Random("c11:ops:%d:%d" % (seed, j))
+        s, p = gen_ops_programs(rng)
+        ops_list.append((s, p, "gen%d" % j))
+    for scenario, programs, label in ops_list:
+        if deadlocked:
+            break
+        rng = random.Random("c11:ops-sched:%d:%s" % (seed, label))
+        scheds = schedules_for([len(p) for p in programs], ops_cap if label.startswith("fixed") else ops_cap // 2, rng)
+        forced_stats["ops_programs"] += 1
+        for sched in scheds:
+            if deadlocked:
+                break
+            run_id += 1
+            if progress is not None:
+                progress.value = run_id
+            res = run_schedule(pool, run_id, scenario, programs, sched)
+            forced_stats["ops_schedules"] += 1
+            scen_count["ops/" + scenario] = scen_count.get("ops/" + scenario, 0) + 1
+            account(res, res["n_print"], res["n_capt"], run_id,
+                    "ops/%s/%s/%s/seed%d" % (scenario, label, "".join(map(str, sched)), seed),
+                    {"family": "ops", "scenario": scenario, "programs": programs, "schedule": sched},
+                    ["ops", scenario, programs, sched])
+            if len(samples) < 1:
+                samples.append({"family": "ops", "run": run_id, "scenario": scenario, "programs": programs, "schedule": sched,
+                                "writes": res["writes"]})
+
+    # ------------------------------------------------------------------ forced schedules, family "preempt"
+    files = shared_object_files()
+    for scenario, x, y in preempt_pairs(quick):
+        if deadlocked:
+            break
+        if quick:
+            full, cap = (64, 24) if scenario == "none" else (0, 12)
+        else:
+            full, cap = (100000, 100000) if scenario == "none" else (0, 150)
+        run_id += 1
+        if progress is not None:
+            progress.value = run_id
+        dry = run_preempt(pool, run_id, scenario, x, y, 0, files)
+        account(dry, dry["n_print"], dry["n_capt"], run_id, "preempt/%s/%s/%s/k0/seed%d" % (scenario, x[0], y[0], seed),
+                {"family": "preempt", "scenario": scenario, "x": x, "y": y, "k": 0}, ["preempt", scenario, x, y, 0])
+        forced_stats["preempt_pairs"] += 1
+        rng = random.Random("c11:preempt:%d:%s:%s:%s" % (seed, scenario, json.dumps(x), json.dumps(y)))
+        for k in preempt_points(dry["count"], full, cap, rng):
+            if deadlocked:
+                break
+            run_id += 1
+            if progress is not None:
+                progress.value = run_id
+            res = run_preempt(pool, run_id, scenario, x, y, k, files)
+            forced_stats["preempt_runs"] += 1
+            forced_stats["preempt_handed"] += 1 if res["handed"] else 0
+            scen_count["preempt/" + scenario] = scen_count.get("preempt/" + scenario, 0) + 1
+            account(res, res["n_print"], res["n_capt"], run_id,
+                    "preempt/%s/%s/%s/k%d/seed%d" % (scenario, x[0], y[0], k, seed),
+                    {"family": "preempt", "scenario": scenario, "x": x, "y": y, "k": k, "of": dry["count"], "at": res["where"],
+                     "y_completed_at_the_preemption_point": res["handed"]},
+                    ["preempt", scenario, x, y, k])
+            if len(samples) < 2 and res["handed"]:
+                samples.append({"family": "preempt", "run": run_id, "scenario": scenario, "x": x, "y": y, "k": k,
+                                "of": dry["count"], "at": res["where"], "writes": res["writes"]})
+    if not pool.broken:
+        pool.close()
+    t_forced = time.time() - t_start
+
+    # ------------------------------------------------------------------ stress runs
+    t_stress = time.time()
+    old_interval = sys.getswitchinterval()
+    sys.setswitchinterval(1e-6)
+    stress_runs = 0
     try:
         for i in range(n_runs):
-            if time.time() - t_start > budget:
+            if deadlocked or time.time() - t_stress > budget:
                 break
             if progress is not None:
                 progress.value = i
@@ -294,51 +804,53 @@ def _run_inner(tier: str, seed: int, progress=None) -> dict:
             scenario = rng.choice(["none", "live", "live", "progress"])
             auto = rng.random() < 0.5
             programs = gen_programs(rng, scenario)
+            add_exports(random.Random("c11:export:%d:%d" % (seed, i)), programs)
             res = run_once(i, scenario, programs, auto)
-            evaluations += 1
+            stress_runs += 1
             scen_count[scenario] = scen_count.get(scenario, 0) + 1
             n_print = sum(1 for p in programs for op in p if op[0] in ("print", "log"))
             n_capt = sum(1 for p in programs for op in p if op[0] == "capture")
-            clauses["c11.print_contiguous_once"] = clauses.get("c11.print_contiguous_once", 0) + n_print
-            clauses["c11.capture_isolated"] = clauses.get("c11.capture_isolated", 0) + n_capt
-            clauses["c11.record_order"] = clauses.get("c11.record_order", 0) + 1
-            clauses["c11.no_deadlock"] = clauses.get("c11.no_deadlock", 0) + 1
-            clauses["c11.no_exception"] = clauses.get("c11.no_exception", 0) + 1
-            if res["interleaved"]:
-                interleaved_runs += 1
-                distinct.add(hashlib.sha1(json.dumps([scenario, auto, programs]).encode()).hexdigest())
-            if len(samples) < 4 and i % 37 == 0:
-                samples.append({"run": i, "scenario": scenario, "auto_refresh": auto, "programs": programs,
+            if len(samples) < 6 and i % 37 == 0:
+                samples.append({"family": "stress", "run": i, "scenario": scenario, "auto_refresh": auto, "programs": programs,
                                 "writes": res["writes"], "interleaved": res["interleaved"]})
-            for f in res["fails"]:
-                totals[f["check"]] = totals.get(f["check"], 0) + 1
-                lst = pending.setdefault(f["check"], [])
-                if len(lst) < MAX_FAIL_PER_CLAUSE and not any(x["input"]["run"] == i for x in lst):
-                    lst.append({"check": f["check"], "what": f["what"],
-                                "input_key": "%s/auto%d/run%d/seed%d" % (scenario, int(auto), i, seed),
-                                "input": {"seed": seed, "run": i, "scenario": scenario, "auto_refresh": auto,
-                                          "programs": programs, "switchinterval": 1e-6},
-                                "expected": f["expected"], "observed": f["observed"]})
-            if any(f["check"] == "c11.no_deadlock" for f in res["fails"]):
-                break  # stuck daemon threads are left behind; do not pile more on top
+            account(res, n_print, n_capt, i, "%s/auto%d/run%d/seed%d" % (scenario, int(auto), i, seed),
+                    {"family": "stress", "scenario": scenario, "auto_refresh": auto, "programs": programs, "switchinterval": 1e-6},
+                    [scenario, auto, programs])
     finally:
         sys.setswitchinterval(old_interval)
     failures = [d for lst in pending.values() for d in lst]
     return {
         "evaluations": evaluations,
         "distinct_nontrivial": len(distinct),
-        "rule": "runs: seeded (seed, index) -> scenario (none | live | progress, auto_refresh on/off) and 2-4 thread "
+        "rule": "stress runs: seeded (seed, index) -> scenario (none | live | progress, auto_refresh on/off) and 2-4 thread "
                 "programs of 3-8 ops over {print 1-3 lines, log, capture(1-2 prints), live.update+refresh, "
-                "progress.advance+refresh}; executed on real threads with sys.setswitchinterval(1e-6). The programs are "
+                "progress.advance+refresh}, thread 0 in half of the runs also export_text(clear=True) 1-2 times; executed on "
+                "real threads with sys.setswitchinterval(1e-6). The programs are "
                 "deterministic per seed, the SCHEDULE IS NOT (inherently scheduling dependent, no schedule exploration): "
-                "results may differ between runs of the same seed. distinct = sha1 of (scenario, programs); non-trivial = "
-                "the recorded write() sequence shows that at least two threads really interleaved (A..B..A) in that run "
-                "(%d of %d runs). Scenario mix: %s" % (interleaved_runs, evaluations, json.dumps(scen_count, sort_keys=True)),
-        "bound": "%d runs x 2-4 threads x 3-8 ops, one Console(record=True, width 100) per run writing to an in-memory "
-                 "file that records (thread id, text) per write; join timeout %.0f s; bounded stress only" % (evaluations, JOIN_TIMEOUT),
+                "results may differ between runs of the same seed. Forced schedules (schedule fixed by the input): family "
+                "ops = every interleaving (at most the cap, then a seeded sample) of the steps of %d small programs in which "
+                "opening and closing a capture / `with console:` block are steps of their own (token passing, %d schedules); "
+                "family preempt = thread E runs print, X, print and is suspended at the k-th line event of X inside the "
+                "modules of Console / Live / Progress while a new thread runs the call Y (%d (X, Y) pairs, %d runs, in %d of "
+                "them Y ran to completion at the preemption point, in the others it blocked on something E holds). "
+                "distinct = sha1 of (family, scenario, programs, schedule | X, Y, k); non-trivial = stress: "
+                "the recorded write() sequence shows that at least two threads really interleaved (A..B..A) in that run; "
+                "ops: the schedule switches threads at least twice; preempt: Y completed while X was suspended "
+                "(%d of %d runs non-trivial). Scenario mix: %s"
+                % (forced_stats["ops_programs"], forced_stats["ops_schedules"], forced_stats["preempt_pairs"],
+                   forced_stats["preempt_runs"], forced_stats["preempt_handed"], interleaved_runs, evaluations,
+                   json.dumps(scen_count, sort_keys=True)),
+        "bound": "%d stress runs x 2-4 threads x 3-8 ops; %d forced op-level schedules of 2-3 threads x 1-6 steps (cap %d per "
+                 "program); %d single-preemption runs (%s line-event positions of X per (X, Y) pair); one "
+                 "Console(record=True, width 100) per run writing to an in-memory "
+                 "file that records (thread id, text) per write; join timeout %.0f s; bounded check only"
+                 % (stress_runs, forced_stats["ops_schedules"], ops_cap, forced_stats["preempt_runs"],
+                    ("all if X has at most 64 of them, else 24 evenly spread; 12 evenly spread with a live display:" if quick
+                     else "all; 150 evenly spread with a live / progress display:"), JOIN_TIMEOUT),
         "samples": samples,
         "clauses": clauses,
         "failures": failures,
         "failure_counts": totals,
         "seconds": round(time.time() - t_start, 2),
+        "phase_seconds": {"forced": round(t_forced, 2), "stress": round(time.time() - t_stress, 2)},
     }
